@@ -38,6 +38,8 @@ def in_scope(prop: str, short: str, cls: str, member: str) -> bool:
         return (short == "cube.py" and ("partition" in tag or "cubeset" in tag or "slice" in tag or "inflate" in tag or "augment" in tag)) or (short == "cubepart.py" and "factory" in tag) or (short in ("matrix/cubemeasure.py", "stripe/cubemeasure.py") and ("factory" in tag or "slice_idx" in tag or tag.startswith("cubemeasures.")))
     if prop == "C07":
         return short == "collator.py" and "sortbyvalue" not in tag or (short == "dimension.py" and ("anchor" in tag or "subtotals." in tag or "_orderspec" in tag))
+    if prop in ("C08", "C19") and short == "dimension.py" and "_orderspec" in tag:
+        return True  # which sort is carried out, and by which (referenced) opposing vector, is read off the order spec
     if prop == "C08":
         return (short == "collator.py" and "sortbyvalue" in tag) or (short in ("matrix/assembler.py", "stripe/assembler.py") and ("sort" in tag or "orderhelper" in tag or "measure" in tag))
     if prop == "C09":
